@@ -5,6 +5,7 @@ equality / lists / sets / quantifiers / function combinators, higher-order varia
 several ways; plus ill-typed skeletons (swapped arguments, self application, clashing uses of one variable,
 occurs-check chains in several constraint orders).  Nothing here is a proof.
 """
+import os
 import random
 import signal
 import sys
@@ -21,8 +22,8 @@ def _alarm(*a):
 
 def run(tier='quick', seed=0):
     t0 = time.time()
-    if '/repo' not in sys.path:
-        sys.path.insert(0, '/repo')
+    if os.environ.get('HOLPY_REPO', '/repo') not in sys.path:
+        sys.path.insert(0, os.environ.get('HOLPY_REPO', '/repo'))
     from logic import basic, context
     basic.load_theory('real')
     from kernel import theory
